@@ -408,12 +408,19 @@ Qed.
 (* ------------------------------------------------------------------------- *)
 (** * 6. ensure_unconfigured and configure on one sign *)
 
+Lemma operation_eqb_refl o : operation_eqb o o = true.
+Proof. unfold operation_eqb. apply N.eqb_refl. Qed.
+
+Lemma state_eqb_refl st : state_eqb st st = true.
+Proof. unfold state_eqb. apply N.eqb_refl. Qed.
+
 Ltac exec :=
-  repeat (progress (cbn [run_one bind send expect verify vstep v_query set_state vreset vinit
+  repeat (progress (cbn [run_one bind send expect vstep v_query set_state vreset vinit
                          v_addr v_style v_state v_pages v_pending v_chunks v_w v_h v_type
-                         fst snd omsg_eqb option_eqb msg_eqb operation_eqb state_eqb
-                         request_code state_code andb];
-                    rewrite ?N.eqb_refl)).
+                         fst snd];
+                    try unfold verify;
+                    cbn [omsg_eqb option_eqb msg_eqb];
+                    rewrite ?N.eqb_refl, ?operation_eqb_refl, ?state_eqb_refl; cbn [andb])).
 
 Lemma one_ensure_unconfigured a s :
   VInv0 s -> v_addr s = a ->
@@ -449,7 +456,10 @@ Proof.
   - unfold vstep. cbn [vinit v_addr v_state]. rewrite N.eqb_refl. reflexivity.
   - cbn [send_items]. rewrite chunks16_config. cbn [send_chunks].
     change ((0 * 16) mod 65536) with 0. change (0 + 1 <? 65536) with true. cbv iota.
-    cbn [bind].
+    rewrite (run_one_bind_done _ _ _
+               {| v_addr := a; v_style := fs; v_state := ConfigInProgress; v_pages := [];
+                  v_pending := []; v_chunks := 1; v_w := fst (dimensions t);
+                  v_h := snd (dimensions t); v_type := Some t |} 1); [reflexivity|].
     rewrite (run_one_bind_done _ _ _
                {| v_addr := a; v_style := fs; v_state := ConfigInProgress; v_pages := [];
                   v_pending := []; v_chunks := 1; v_w := fst (dimensions t);
@@ -474,4 +484,218 @@ Proof.
   intros Hinv Ha. unfold configure.
   rewrite (run_one_bind_done _ _ _ _ _ (one_ensure_unconfigured a s Hinv Ha)).
   apply one_configure_fresh.
+Qed.
+
+(* ------------------------------------------------------------------------- *)
+(** * 7. Pixel data on one sign *)
+
+(* Chunks 1.. of an item: appended to the buffer, counted, never flushing. *)
+Lemma send_chunks_tail : forall cs i count s,
+  v_state s = PixelsInProgress -> v_chunks s = count ->
+  1 <= i -> (i + nlen cs) * 16 <= 65536 -> count + nlen cs < 65536 ->
+  run_one (send_chunks cs i count) s =
+  ({| v_addr := v_addr s; v_style := v_style s; v_state := PixelsInProgress;
+      v_pages := v_pages s; v_pending := v_pending s ++ concat cs;
+      v_chunks := count + nlen cs; v_w := v_w s; v_h := v_h s; v_type := v_type s |},
+   Done (count + nlen cs)).
+Proof.
+  induction cs as [|c cs IH]; intros i count s Hst Hc Hi Hoff Hcnt.
+  - cbn [send_chunks run_one concat]. rewrite app_nil_r, nlen_nil.
+    replace (count + 0) with count by lia.
+    rewrite (vsign_eta s) at 1. rewrite Hst, Hc. reflexivity.
+  - rewrite nlen_cons in Hoff, Hcnt. cbn [send_chunks].
+    assert (Ho : (i * 16) mod 65536 <> 0) by lia.
+    rewrite (run_one_bind_done _ _ _ _ _
+               (run_one_expect_none _ s _ (chunk_nonzero s _ c Hst Ho))).
+    destruct (N.ltb_spec (count + 1) 65536) as [Hlt|Hlt]; [|lia].
+    rewrite IH; cbn [v_addr v_style v_state v_pages v_pending v_chunks v_w v_h v_type];
+      [|exact Hst|unfold winc; lia|lia|lia|lia].
+    rewrite nlen_cons. cbn [concat]. rewrite app_assoc.
+    replace (count + 1 + nlen cs) with (count + (nlen cs + 1)) by lia. reflexivity.
+Qed.
+
+(* A whole item: chunk 0 flushes the previous buffer into the page list and starts a new
+   buffer; the rest is appended. *)
+Lemma send_chunks_item c cs count s :
+  v_state s = PixelsInProgress -> v_chunks s = count ->
+  (1 + nlen cs) * 16 <= 65536 -> count + 1 + nlen cs < 65536 ->
+  run_one (send_chunks (c :: cs) 0 count) s =
+  ({| v_addr := v_addr s; v_style := v_style s; v_state := PixelsInProgress;
+      v_pages := v_pages (flush_pixels s); v_pending := c ++ concat cs;
+      v_chunks := count + 1 + nlen cs; v_w := v_w s; v_h := v_h s; v_type := v_type s |},
+   Done (count + 1 + nlen cs)).
+Proof.
+  intros Hst Hc Hoff Hcnt. cbn [send_chunks]. change ((0 * 16) mod 65536) with 0.
+  rewrite (run_one_bind_done _ _ _ _ _ (run_one_expect_none _ s _ (chunk_zero s c Hst))).
+  destruct (N.ltb_spec (count + 1) 65536) as [Hlt|Hlt]; [|lia].
+  change (0 + 1) with 1.
+  rewrite send_chunks_tail; cbn [v_addr v_style v_state v_pages v_pending v_chunks v_w v_h v_type];
+    [reflexivity|exact Hst|unfold winc; lia|lia|lia|lia].
+Qed.
+
+Definition mkpage (w h : N) (bs : list N) : page := {| p_w := w; p_h := h; p_bytes := bs |}.
+
+Lemma flush_pages_set_state s st :
+  v_pages (flush_pixels (set_state s st)) = v_pages (flush_pixels s).
+Proof.
+  unfold flush_pixels. cbn [set_state v_pending v_w v_h v_pages].
+  destruct (v_pending s); reflexivity.
+Qed.
+
+(* All items: each becomes one page, in order.  The invariant is phrased on the page list
+   the sign would have after a flush, since the last item sits in the buffer. *)
+Lemma send_items_spec : forall items count s,
+  v_state s = PixelsInProgress -> v_chunks s = count ->
+  0 < v_w s -> 0 < v_h s ->
+  total_bytes (v_w s) (v_h s) <= 65536 ->
+  Forall (fun it => nlen it = total_bytes (v_w s) (v_h s)) items ->
+  count + nlen items * (total_bytes (v_w s) (v_h s) / 16) < 65536 ->
+  exists s',
+    run_one (send_items items count) s
+      = (s', Done (count + nlen items * (total_bytes (v_w s) (v_h s) / 16)))
+    /\ v_state s' = PixelsInProgress
+    /\ v_chunks s' = count + nlen items * (total_bytes (v_w s) (v_h s) / 16)
+    /\ v_pages (flush_pixels s')
+       = v_pages (flush_pixels s) ++ map (mkpage (v_w s) (v_h s)) items
+    /\ v_addr s' = v_addr s /\ v_style s' = v_style s
+    /\ v_w s' = v_w s /\ v_h s' = v_h s /\ v_type s' = v_type s.
+Proof.
+  induction items as [|it items IH]; intros count s Hst Hc Hw Hh HT Hits Hcnt.
+  - exists s. cbn [send_items run_one map]. rewrite (@nlen_nil (list N)), app_nil_r.
+    replace (count + 0 * (total_bytes (v_w s) (v_h s) / 16)) with count by lia.
+    repeat split; assumption.
+  - pose proof (Forall_inv Hits) as Hit. pose proof (Forall_inv_tail Hits) as Hits'.
+    cbv beta in Hit.
+    pose proof (total_bytes_mod16 (v_w s) (v_h s)) as Hm.
+    pose proof (total_bytes_ge16 (v_w s) (v_h s)) as Hge.
+    set (T := total_bytes (v_w s) (v_h s)) in *.
+    set (q := T / 16) in *.
+    assert (HTq : T = 16 * q) by (unfold q; lia).
+    assert (Hq1 : 1 <= q) by lia.
+    destruct (chunks16_spec it q) as [Hn Hcat]; [lia|].
+    rewrite nlen_cons, N.mul_add_distr_r, N.mul_1_l in Hcnt.
+    destruct (chunks16 it) as [|c cs] eqn:Ecs; [rewrite (@nlen_nil (list N)) in Hn; lia|].
+    rewrite nlen_cons in Hn. cbn [concat] in Hcat.
+    cbn [send_items]. rewrite Ecs.
+    rewrite (run_one_bind_done _ _ _ _ _
+               (send_chunks_item c cs count s Hst Hc ltac:(lia) ltac:(lia))).
+    match goal with |- context [run_one _ ?s1] => set (s1' := s1) end.
+    destruct (IH (count + 1 + nlen cs) s1') as (s' & Hr & H1 & H2 & H3 & H4 & H5 & H6 & H7 & H8);
+      subst s1'; cbn [v_addr v_style v_state v_pages v_pending v_chunks v_w v_h v_type];
+      try reflexivity; try assumption.
+    { fold T. fold q. lia. }
+    cbn [v_addr v_style v_state v_pages v_pending v_chunks v_w v_h v_type] in *.
+    fold T in Hr, H2. fold q in Hr, H2.
+    exists s'. rewrite nlen_cons, N.mul_add_distr_r, N.mul_1_l.
+    replace (count + (nlen items * q + q)) with (count + 1 + nlen cs + nlen items * q) by lia.
+    split; [exact Hr|]. split; [exact H1|]. split; [exact H2|].
+    split; [|repeat split; assumption].
+    rewrite H3. cbn [map].
+    match goal with |- v_pages (flush_pixels ?s1) ++ _ = _ => set (s1' := s1) end.
+    destruct (flush_pixels_spec s1') as (_ & Hy & _).
+    rewrite Hy.
+    + rewrite <- app_assoc. unfold pending_page, mkpage, s1'.
+      cbn [v_addr v_style v_state v_pages v_pending v_chunks v_w v_h v_type app].
+      rewrite Hcat. reflexivity.
+    + unfold pending_complete, s1'.
+      cbn [v_addr v_style v_state v_pages v_pending v_chunks v_w v_h v_type].
+      rewrite Hcat. auto.
+Qed.
+
+Lemma map_mkpage w h ps :
+  Forall (fun p => p_w p = w /\ p_h p = h /\ nlen (p_bytes p) = total_bytes w h) ps ->
+  map (mkpage w h) (map p_bytes ps) = ps.
+Proof.
+  induction 1 as [|p ps (Hpw & Hph & _) _ IH]; [reflexivity|].
+  cbn [map]. rewrite IH. f_equal. destruct p as [pw ph pb]. cbn [p_w p_h p_bytes] in *.
+  subst. reflexivity.
+Qed.
+
+Lemma pages_loggable_fit w h ps :
+  0 < w -> 0 < h ->
+  Forall (fun p => p_w p = w /\ p_h p = h /\ nlen (p_bytes p) = total_bytes w h) ps ->
+  forallb log_page_ok ps = true.
+Proof.
+  intros Hw Hh Hps. apply forallb_forall. intros p Hin.
+  rewrite Forall_forall in Hps. destruct (Hps p Hin) as (Hpw & Hph & Hl).
+  apply (log_page_ok_fits w h). unfold page_fits. rewrite Hpw, Hph. auto.
+Qed.
+
+(* The sign when all pages have arrived and the count matched. *)
+Definition received (s : vsign) (ps : list page) : vsign :=
+  {| v_addr := v_addr s; v_style := v_style s; v_state := PixelsReceived; v_pages := ps;
+     v_pending := []; v_chunks := 0; v_w := v_w s; v_h := v_h s; v_type := v_type s |}.
+
+(* ... and after PixelsComplete. *)
+Definition loaded (s : vsign) (ps : list page) : vsign :=
+  {| v_addr := v_addr s; v_style := v_style s;
+     v_state := match v_style s with Automatic => ShowingPages | Manual => PageLoaded end;
+     v_pages := ps; v_pending := []; v_chunks := 0; v_w := v_w s; v_h := v_h s;
+     v_type := v_type s |}.
+
+Lemma one_attempt_pixels a ps s :
+  VInv0 s -> v_addr s = a -> receive_pixels_legal (v_state s) = true ->
+  0 < v_w s -> 0 < v_h s ->
+  Forall (fun p => p_w p = v_w s /\ p_h p = v_h s
+                   /\ nlen (p_bytes p) = total_bytes (v_w s) (v_h s)) ps ->
+  total_bytes (v_w s) (v_h s) <= 65536 ->
+  nlen ps * (total_bytes (v_w s) (v_h s) / 16) < 65536 ->
+  run_one (attempt a ReceivePixels (map p_bytes ps)) s
+  = (received s ps, Done (Some (ReportState a PixelsReceived))).
+Proof.
+  intros Hinv Ha Hlegal Hw Hh Hps HT Hcnt. subst a.
+  assert (Hidle : v_pending s = [] /\ v_chunks s = 0).
+  { apply (VInv0_idle s Hinv). destruct (v_state s); try discriminate Hlegal; reflexivity. }
+  destruct Hidle as [Hpend Hch].
+  set (s1 := {| v_addr := v_addr s; v_style := v_style s; v_state := PixelsInProgress;
+                v_pages := []; v_pending := v_pending s; v_chunks := v_chunks s;
+                v_w := v_w s; v_h := v_h s; v_type := v_type s |}).
+  assert (Hnl : nlen (map p_bytes ps) = nlen ps) by (unfold nlen; rewrite map_length; reflexivity).
+  destruct (send_items_spec (map p_bytes ps) 0 s1)
+    as (s2 & Hr & H1 & H2 & H3 & H4 & H5 & H6 & H7 & H8);
+    unfold s1; cbn [v_addr v_style v_state v_pages v_pending v_chunks v_w v_h v_type];
+    try reflexivity; try assumption.
+  { apply Forall_map. revert Hps. apply Forall_impl. intros p (_ & _ & Hl). exact Hl. }
+  { rewrite Hnl. lia. }
+  fold s1 in Hr, H3. unfold s1 in H4, H5, H6, H7, H8.
+  cbn [v_addr v_style v_state v_pages v_pending v_chunks v_w v_h v_type] in *.
+  set (n := 0 + nlen (map p_bytes ps) * (total_bytes (v_w s) (v_h s) / 16)) in *.
+  assert (Hp3 : v_pages (flush_pixels s2) = ps).
+  { rewrite H3. rewrite flush_pixels_nil by exact Hpend. unfold s1. cbn [v_pages app].
+    apply map_mkpage. exact Hps. }
+  apply (run_one_attempt (v_addr s) ReceivePixels _ s s1 s2 (received s ps) (received s ps) n).
+  - unfold vstep. cbv zeta. rewrite N.eqb_refl, Hlegal. reflexivity.
+  - exact Hr.
+  - unfold vstep. f_equal. f_equal.
+    rewrite (v_data_chunks_sent_receiving s2 n (or_intror H1)). cbv zeta.
+    rewrite flush_pages_set_state, Hp3, H1, H2, N.eqb_refl, H4, H5, H6, H7, H8. reflexivity.
+  - unfold vstep, received. cbn [v_addr]. rewrite N.eqb_refl. reflexivity.
+Qed.
+
+Theorem one_send_pages a ps s :
+  VInv0 s -> v_addr s = a -> receive_pixels_legal (v_state s) = true ->
+  0 < v_w s -> 0 < v_h s ->
+  Forall (fun p => p_w p = v_w s /\ p_h p = v_h s
+                   /\ nlen (p_bytes p) = total_bytes (v_w s) (v_h s)) ps ->
+  total_bytes (v_w s) (v_h s) <= 65536 ->
+  nlen ps * (total_bytes (v_w s) (v_h s) / 16) < 65536 ->
+  run_one (send_pages a ps) s = (loaded s ps, Done (v_style s)).
+Proof.
+  intros Hinv Ha Hlegal Hw Hh Hps HT Hcnt.
+  pose proof (one_attempt_pixels a ps s Hinv Ha Hlegal Hw Hh Hps HT Hcnt) as Hatt.
+  subst a. unfold send_pages.
+  rewrite (run_one_bind_done _ _ _ _ _
+             (run_one_transfer _ _ _ PixelsReceived PixelsFailed _ _ Hatt eq_refl)).
+  assert (Hpc : vstep (received s ps) (PixelsComplete (v_addr s)) = Some (loaded s ps, None)).
+  { unfold vstep, received. cbn [v_addr v_state v_pages v_style]. rewrite N.eqb_refl.
+    rewrite (pages_loggable_fit _ _ ps Hw Hh Hps). reflexivity. }
+  rewrite (run_one_bind_done _ _ _ _ _ (run_one_expect_none _ _ _ Hpc)).
+  assert (Hq : vstep (loaded s ps) (QueryState (v_addr s))
+               = Some (loaded s ps, Some (ReportState (v_addr s) (v_state (loaded s ps))))).
+  { unfold vstep, v_query, loaded. cbn [v_addr v_state]. rewrite N.eqb_refl.
+    destruct (v_style s); reflexivity. }
+  rewrite (run_one_bind_done _ _ _ _ _ (run_one_send _ _ _ _ Hq)).
+  unfold loaded at 1. cbn [v_state]. destruct (v_style s); cbv iota beta.
+  - rewrite N.eqb_refl. reflexivity.
+  - reflexivity.
 Qed.
